@@ -513,7 +513,8 @@ def derive_tables(rng, faces, shuffle_edges=True):
 
 def ugrid(rng, *, w=None, h=None, start_index=None, fill=None, transposed=None, supplied=None,
           edge_dim_declared=None, coords_as_coords=None, face_coords=None, mesh=None, variety=True,
-          invalid=None, bare_zero_based=()):
+          invalid=None, bare_zero_based=(), extra_width=0):
+    # extra_width: face tables wider than the largest face (every row padded with fill entries), as some models write them
     # bare_zero_based: connectivity roles stored zero-based WITHOUT a start_index attribute (UGRID: a missing attribute means
     # 0 for that variable) while the other tables carry the dataset's start_index
     nodes, faces = mesh if mesh is not None else lattice_mesh(rng, w, h, variety=variety)
@@ -528,7 +529,7 @@ def ugrid(rng, *, w=None, h=None, start_index=None, fill=None, transposed=None, 
             faces = list(faces)
             faces[k] = f
     nn, nf = len(nodes), len(faces)
-    maxn = max(len(f) for f in faces)
+    maxn = max(len(f) for f in faces) + extra_width
     uniform = all(len(f) == maxn for f in faces)
     if start_index is None:
         start_index = rng.choice([0, 1])
@@ -558,6 +559,9 @@ def ugrid(rng, *, w=None, h=None, start_index=None, fill=None, transposed=None, 
         if role.replace('_connectivity', '') in bare_zero_based or (rng.random() < 0.3 and si == 0):
             attrs.pop('start_index')
         mode = fill if need_fill else rng.choice([fill, 'none'])
+        if mode == 'attr0' and si != 1:
+            mode = 'attr'
+        fillv = 0 if mode == 'attr0' else FILL            # one-based tables that write 'nothing here' as 0
         if mode == 'nan':
             arr = numpy.full((len(rows), width), numpy.nan)
             for r, row in enumerate(rows):
@@ -565,13 +569,13 @@ def ugrid(rng, *, w=None, h=None, start_index=None, fill=None, transposed=None, 
                     if v is not None:
                         arr[r, c] = v + si
         else:
-            arr = numpy.full((len(rows), width), FILL, dtype='i4')
+            arr = numpy.full((len(rows), width), fillv, dtype='i4')
             for r, row in enumerate(rows):
                 for c, v in enumerate(row):
                     if v is not None:
                         arr[r, c] = v + si
-            if mode == 'attr':
-                attrs['_FillValue'] = numpy.int32(FILL)
+            if mode in ('attr', 'attr0'):
+                attrs['_FillValue'] = numpy.int32(fillv)
         d = list(dims)
         if transposed and allow_transpose:
             arr = arr.T
